@@ -274,6 +274,82 @@ def one_run(exe, work, rnd, idx, poll, reopen, tail, rotate, race=False):
                            "position (each exactly once, in order, with its true line number)"}, info
 
 
+def multi_run(exe, work, rnd, idx, poll, reopen):
+    """Several followed files with `--readers 1`: TailFilesToChan starts one follower per file (no semaphore), so a
+    follower that never finishes must not keep the later files from being followed (`multi_no_starvation`)."""
+    d = os.path.join(work, "cli-%d" % idx)
+    shutil.rmtree(d, ignore_errors=True)
+    os.makedirs(d)
+    names = ["a.log", "b.log", "c.log"]
+    paths = [os.path.join(d, n) for n in names]
+    logs = {}
+    for i, pth in enumerate(paths):
+        first = b"first-%d\n" % i
+        with open(pth, "wb") as f:
+            f.write(first)
+        logs[pth] = first
+    cmd = [exe, "--nocolor", "filter", "--line", "-F" if reopen else "-f", "--readers", "1", "--workers", "1", "--batch", "1",
+           "--batch-buffer", str(rnd.pick([0, 1, 2]))]
+    if poll:
+        cmd.append("--poll")
+    cmd += paths
+    p = subprocess.Popen(cmd, stdout=subprocess.PIPE, stderr=subprocess.PIPE, stdin=subprocess.DEVNULL, cwd=d)
+    out = Out(p.stdout)
+    info = {"cmd": " ".join(cmd[1:5]) + " … 3 files", "notes": [], "fatal": []}
+    try:
+        for pth in paths:
+            if not wait_following(p.pid, pth, False):
+                info["fatal"].append("the child never opened %s (a follower of an earlier file holds the only reader slot?)"
+                                     % os.path.basename(pth))
+        k = 0
+        for rnd_round in range(2 + rnd.intn(2)):
+            order = [2, 0, 1] if rnd_round % 2 == 0 else [1, 2, 0]
+            for i in order:
+                k += 1
+                line = b"M%d-%d-%d" % (idx, i, k)
+                with open(paths[i], "ab") as f:
+                    f.write(line + b"\n")
+                logs[paths[i]] += line + b"\n"
+                if not out.wait_for(b": " + line + b"\n", 4.0 + (ATTEMPTS * POLL if poll else 0)):
+                    info["notes"].append("line appended to %s not seen" % names[i])
+        if not reopen:
+            for pth in paths:
+                os.remove(pth)
+            try:
+                p.wait(timeout=6.0 + ATTEMPTS * POLL)
+            except subprocess.TimeoutExpired:
+                info["fatal"].append("plain follow did not end after the removal of all files")
+        else:
+            p.send_signal(signal.SIGINT)
+            try:
+                p.wait(timeout=5.0)
+            except subprocess.TimeoutExpired:
+                info["fatal"].append("did not exit on SIGINT")
+    finally:
+        if p.poll() is None:
+            p.kill()
+            p.wait()
+        out.t.join(timeout=2.0)
+    err = p.stderr.read()
+    data = out.buf
+    bad_files = []
+    for pth in paths:
+        mine = b"".join(l + b"\n" for l in data.split(b"\n") if l.startswith(pth.encode() + b" "))
+        got, bad = parse_stdout(pth, mine)
+        if got != expected(pth, logs[pth]) or bad is not None:
+            bad_files.append({"file": os.path.basename(pth), "printed": [g[1][:60].hex() for g in got],
+                              "expected": [w[1][:60].hex() for w in expected(pth, logs[pth])]})
+    info.update({"rc": p.returncode, "files": 3})
+    shutil.rmtree(d, ignore_errors=True)
+    if not bad_files and not info["fatal"]:
+        return None, info
+    return {"key": "cli-follow-multi-%s%s" % ("poll" if poll else "notify", "-reopen" if reopen else ""),
+            "kind": "cli-follow-multi", "cmd": " ".join(cmd[1:]), "notes": info["fatal"] + info["notes"], "rc": p.returncode,
+            "files": bad_files, "stderr": err[-600:].decode("utf8", "replace"),
+            "explanation": "three files followed with --readers 1: the lines printed for some file are not the lines appended to it "
+                           "(each exactly once, in order, with its true line number) - a followed file was starved or mixed up"}, info
+
+
 def run(ctx):
     rnd = Rand(ctx["seed"] * 7919 + 15)
     exe = build_rare(ctx)
@@ -289,20 +365,26 @@ def run(ctx):
             reopen = rnd.intn(2) == 1
             extra.append((poll, reopen, rnd.intn(3) == 0, reopen and rnd.intn(2) == 1))
         plan = plan + extra
+    # several files at once, --readers 1 (None = multi_run); quick: one notify run, thorough: all four combinations
+    multi = [(False, False)] if ctx["tier"] == "quick" else [(False, False), (False, True), (True, False), (True, True)]
+    plan = plan + [("multi",) + m for m in multi]
     violations, infos, done = [], [], 0
     # independent runs, a few at a time (they mostly sleep)
     results = [None] * len(plan)
     seeds = [rnd.u64() for _ in plan]
 
     def worker(i):
-        poll, reopen, tail, rotate = plan[i]
         try:
-            race = exe_race is not None and i >= len(plan) - 8     # the last runs of the thorough tier: -race binary
+            if plan[i][0] == "multi":
+                results[i] = multi_run(exe, work, Rand(seeds[i]), i, plan[i][1], plan[i][2])
+                return
+            poll, reopen, tail, rotate = plan[i]
+            race = exe_race is not None and len(plan) - 8 - len(multi) <= i     # the last single-file runs of the thorough tier: -race binary
             results[i] = one_run(exe_race if race else exe, work, Rand(seeds[i]), i, poll, reopen, tail, rotate, race)
         except Exception as e:   # noqa
             results[i] = ({"key": "cli-follow-harness-error", "kind": "harness-error", "error": repr(e)}, {})
 
-    par = 3 if ctx["tier"] == "quick" else 4
+    par = 4
     for base in range(0, len(plan), par):
         ts = [threading.Thread(target=worker, args=(i,)) for i in range(base, min(base + par, len(plan)))]
         for t in ts:
